@@ -355,7 +355,7 @@ def run_mapping(case):
                         want &= FULL & ~(x[(u1, v1)] & x[(u2, v2)])
         cmp_got, cmp_want = got, want
     else:
-        bits = (m - 1).bit_length()
+        bits = (m - 1).bit_length() if m > 1 else 0
         exp_idx = sorted((u, b) for u in range(1, n + 1) for b in range(bits))
         if sorted(dec) != exp_idx:
             raise Violation("binary mapping variables {} are not {}".format(sorted(dec), exp_idx))
@@ -417,9 +417,9 @@ def enum_mapping(tier):
                 for m in range(0, 5):
                     if n * m <= 12:
                         yield {'cls': clsname, 'kind': 'unary', 'force': force, 'n': n, 'm': m, 'pre': 0}
-            for n in range(1, 5):
-                for m in range(1, 9):
-                    if n * (m - 1).bit_length() <= 12 and force != 'surjective':
+            for n in range(0, 5):
+                for m in range(0, 9):
+                    if n * max(0, (m - 1).bit_length()) <= 12 and force != 'surjective':
                         yield {'cls': clsname, 'kind': 'binary', 'force': force, 'n': n, 'm': m, 'pre': (n + m) % 3}
             lim = 2 if tier == 'quick' else 3
             for n in range(0, lim + 1):
@@ -438,9 +438,9 @@ def strat_mapping(draw):
     force = draw(st.sampled_from(FORCES if kind != 'binary' else [f for f in FORCES if f != 'surjective']))
     pre = draw(st.integers(0, 3))
     if kind == 'binary':
-        n = draw(st.integers(1, 4))
-        m = draw(st.integers(1, 9))
-        if n * (m - 1).bit_length() + pre > 16:
+        n = draw(st.integers(0, 4))
+        m = draw(st.integers(0, 9))
+        if n * max(0, (m - 1).bit_length()) + pre > 16:
             n = 2
         return {'cls': clsname, 'kind': kind, 'force': force, 'n': n, 'm': m, 'pre': pre}
     n = draw(st.integers(0, 4))
